@@ -8,7 +8,7 @@ one() {
   d="$1"; id=$(echo "$d" | sed -E 's#.*/([A-Z]+)[/-](r[0-9]+)$#\1-\2#')
   wt=$(mktemp -d /tmp/rm-wt.XXXXXX); rmdir "$wt"; vd=$(mktemp -d /tmp/rm-vd.XXXXXX)
   git -C /repo worktree add -q --detach "$wt" HEAD || exit 2
-  git -C "$wt" apply "$(realpath "$d/patch.diff")" || { echo "$id APPLY-FAILED"; git -C /repo worktree remove --force "$wt"; exit 0; }
+  { git -C "$wt" apply "$(realpath "$d/patch.diff")" 2>/dev/null || git -C "$wt" apply --3way "$(realpath "$d/patch.diff")" 2>/dev/null; } || { echo "$id APPLY-FAILED"; git -C /repo worktree remove --force "$wt"; exit 0; }
   ln -s /verif/known_findings.json "$vd/known_findings.json"; ln -s /verif/tools "$vd/tools"
   out="$d/.alarms.txt"; : > "$out"
   for p in C01 C02 C03 C04 C05 C06 C07 C08 C09 C10 C11 C12 C13 C14 C15 C16 C17 C18 C19; do
